@@ -119,6 +119,14 @@ var sim *simulator
 /* random response latency in microseconds (0 = none), for the concurrency stress */
 var simLatencyMicros int64
 
+/*
+a gate the UI ops close to keep a load in flight: while it is non-zero every routed request is
+
+	held (after it has been read and logged, before anything is answered); simHeldNow counts them
+*/
+var simHold int32
+var simHeldNow int32
+
 const simHosts = 5
 
 func startSimulator() *simulator {
@@ -369,6 +377,13 @@ func (s *simulator) handle(raw net.Conn, cfg *tls.Config, authority string) {
 	}
 	if max := atomic.LoadInt64(&simLatencyMicros); max > 0 {
 		time.Sleep(time.Duration(rand.Int63n(max)) * time.Microsecond)
+	}
+	if atomic.LoadInt32(&simHold) != 0 {
+		atomic.AddInt32(&simHeldNow, 1)
+		for waited := 0; atomic.LoadInt32(&simHold) != 0 && waited < 9000; waited++ {
+			time.Sleep(time.Millisecond)
+		}
+		atomic.AddInt32(&simHeldNow, -1)
 	}
 	body := []byte(expandPads(rt.resp))
 	unit := simTimeoutSeconds()
